@@ -6,8 +6,10 @@ import (
 
 // Ideal salted hash used for both the pluggable authboss.Hasher of the world model and the
 // library's direct bcrypt calls (recovery codes): hash = "$2a$" + salt(8) + H(salt+password).
-// bcrypt's documented contract is kept: passwords longer than 72 bytes are rejected by
-// GenerateFromPassword; Compare succeeds iff the hash was generated from that password.
+// bcrypt's contract is kept: passwords longer than 72 bytes are rejected by
+// GenerateFromPassword (x/crypto >= v0.5); the algorithm itself only ever reads the first 72
+// bytes of the key, so Compare succeeds iff the first 72 bytes of the password are the ones
+// the hash was generated from.
 
 const BcPrefix = "$2a$"
 const BcSaltLen = 8
@@ -23,7 +25,15 @@ var ErrHashTooShort = &bcErr{"crypto/bcrypt: hashedSecret too short to be a bcry
 // BcMake builds the hash of p with the given 8-byte salt: prefix + salt + H(salt + p) where H
 // is an ideal (injective, fixed-length, hex) hash — uninterpreted under the executor, a
 // truncated SHA-256 natively. The plaintext is not recoverable from the stored value.
-func BcMake(p, salt string) string { return BcPrefix + salt + verif.UFStr("ideal_hash", salt+p) }
+func BcMake(p, salt string) string { return BcPrefix + salt + verif.UFStr("ideal_hash", salt+bcKey(p)) }
+
+// bcKey: the part of the password bcrypt's key schedule reads.
+func bcKey(p string) string {
+	if len(p) > 72 {
+		return p[:72]
+	}
+	return p
+}
 
 const bcLen = len(BcPrefix) + BcSaltLen + 20
 
@@ -33,7 +43,7 @@ func BcMatches(h, p string) bool {
 		return false
 	}
 	salt := h[len(BcPrefix) : len(BcPrefix)+BcSaltLen]
-	return h[len(BcPrefix)+BcSaltLen:] == verif.UFStr("ideal_hash", salt+p)
+	return h[len(BcPrefix)+BcSaltLen:] == verif.UFStr("ideal_hash", salt+bcKey(p))
 }
 
 func BcryptGenerateFromPassword(password []byte, cost int) ([]byte, error) {
